@@ -171,8 +171,8 @@ def gen_mux(rng, tier, long_run=False):
 def gen_frag(rng, tier):
     vc = rng.choice(['h264', 'h265', 'av1', 'vp9'])
     cfg = {'vc': vc, 'w': 640, 'h': 480, 'timescale': rng.choice([90000, 90000, 1000, 48000]), 'fragms': rng.choice([100, 500, 2000]),
-           'via': 'config', 'unit': 1, 'unit1': True,
-           'facets': {'bytes': True, 'timing': True, 'tree': True, 'raw': False}}
+           'via': 'config', 'unit': 1, 'unit1': True, 'judge_config': True,
+           'facets': {'bytes': True, 'timing': True, 'tree': True, 'raw': rng.random() < 0.3}}
     if vc in ('h264', 'h265'):
         cfg['sps'] = SPS_A
         cfg['pps'] = PPS_A
@@ -286,6 +286,173 @@ def gen_adts(rng, tier):
     return out
 
 
+def gen_layout(rng, tier):
+    """Every codec x audio x metadata x fast-start configuration with a short valid history
+    (zero frames, audio configured without audio frames, single frame, several frames)."""
+    out = []
+    dims = [(640, 480), (1920, 1080), (1, 1), (4096, 2160), (65535, 65535), (16, 16)]
+    metas = [None, {'title': list('T'.encode())}, {'title': list('Tïtle ☃ 𝄞'.encode()), 'ct_days': 19000, 'ct_sod': 86399, 'lang': list(b'fra')},
+             {'lang': list(b'deu')}, {'ct_days': 0, 'ct_sod': 0}, {'title': []}]
+    auds = [('none', 0, 0), ('aac', 48000, 2), ('aac', 44100, 1), ('aac', 96000, 6), ('aac', 7350, 8), ('aac', 12345, 2),
+            ('opus', 48000, 2), ('opus', 48000, 1), ('opus', 44100, 6)]
+    k = 0
+    for vc in ['h264', 'h265', 'av1', 'vp9']:
+        for (ac, rate, ch) in auds:
+            for fast in (True, False):
+                for shape in ('empty', 'one', 'vonly', 'av'):
+                    if tier == 'quick' and (k % 3) and shape in ('empty', 'vonly'):
+                        k += 1
+                        continue
+                    k += 1
+                    w, h = dims[k % len(dims)]
+                    cfg = base_cfg(vc, ac, fast=fast, w=w, h=h, rate=rate or 48000, ch=ch or 2)
+                    if ac == 'aac':
+                        cfg['prof'] = ['lc', 'main', 'ssr', 'ltp', 'he', 'hev2'][k % 6]
+                    m = metas[k % len(metas)]
+                    if m is not None:
+                        cfg['meta'] = m
+                    calls = []
+                    if shape != 'empty':
+                        calls.append({'op': 'wv', 'pts': fin(0), 'data': video_frame(rng, vc, True, 5), 'key': True})
+                    if shape in ('vonly', 'av'):
+                        calls.append({'op': 'wvd', 'pts': fin(18000), 'dts': fin(9000), 'data': video_frame(rng, vc, False, 7), 'key': False})
+                        calls.append({'op': 'wvd', 'pts': fin(9000), 'dts': fin(18000), 'data': video_frame(rng, vc, False, 3), 'key': False})
+                    if shape == 'av' and ac != 'none':
+                        calls.append({'op': 'wa', 'pts': fin(0), 'data': audio_frame(rng, ac, 6)})
+                        calls.append({'op': 'wa', 'pts': fin(6400), 'data': audio_frame(rng, ac, 9)})
+                    calls.append({'op': 'fin', 'how': 'in_place_stats'})
+                    out.append({'cfg': cfg, 'calls': calls})
+    return out
+
+
+def gen_fraginit(rng, tier):
+    """Init segments of all four codecs through the builder: parameter sets of many lengths, dimension classes."""
+    out = []
+    lens = [1, 3, 4, 5, 16, 255, 256, 1000] if tier == 'quick' else [1, 2, 3, 4, 5, 15, 16, 17, 255, 256, 257, 1000, 4000, 65535]
+    dims = [(640, 480), (1, 1), (16, 16), (1920, 1080), (4096, 2160), (65535, 65535)]
+    k = 0
+    def ps(first, n):
+        return [first] + [((i * 7 + k) % 200) + 20 for i in range(n - 1)]
+    for vc in ['h264', 'h265', 'av1', 'vp9']:
+        for n in lens:
+            for via in ('builder', 'config'):
+                k += 1
+                w, h = dims[k % len(dims)]
+                cfg = {'vc': vc, 'w': w, 'h': h, 'timescale': 90000, 'fragms': 2000, 'via': via, 'unit': 1, 'unit1': True,
+                       'judge_config': True, 'must_build': True,
+                       'facets': {'bytes': True, 'timing': True, 'tree': True, 'raw': True}}
+                if vc == 'h264':
+                    cfg['sps'] = ps(0x67, n)
+                    cfg['pps'] = ps(0x68, max(1, n // 2))
+                elif vc == 'h265':
+                    cfg['vps'] = ps(0x40, max(1, n // 3))
+                    cfg['sps'] = ps(0x42, n)
+                    cfg['pps'] = ps(0x44, max(1, n // 2))
+                elif vc == 'av1':
+                    if n > 120:
+                        continue
+                    cfg['av1'] = [0x0a, len(AV1_SEQ)] + AV1_SEQ if n != 3 else [0x0a, 11, 0x20 | 0, 0, 0, 66, 98, 127, 239, 128, 48, 1, 0][:13]
+                    cfg['av1'] = [0x0a, len(AV1_SEQ)] + AV1_SEQ
+                else:
+                    if n > 16:
+                        continue
+                    cfg['vp9'] = {'width': w, 'height': h, 'profile': k % 4, 'bit_depth': [8, 10][k % 2], 'color_space': k % 8,
+                                  'transfer_function': (k // 2) % 8, 'matrix_coefficients': k % 2, 'level': 0, 'full_range_flag': (k // 3) % 2}
+                calls = [{'op': 'fi'}, {'op': 'fw', 'pts': 0, 'dts': 0, 'data': pad(rng, 5), 'sync': True},
+                         {'op': 'fw', 'pts': 3000, 'dts': 3000, 'data': pad(rng, 2), 'sync': False}, {'op': 'fi'}, {'op': 'ff'}, {'op': 'fi'}]
+                out.append({'kind': 'frag', 'cfg': cfg, 'calls': calls})
+    # builder without the required parameters must fail
+    for vc, missing in [('h264', 'sps'), ('h264', 'pps'), ('h265', 'vps'), ('h265', 'sps'), ('h265', 'pps'), ('av1', 'av1'), ('vp9', 'vp9'), ('h264', 'video')]:
+        cfg = {'vc': vc, 'w': 640, 'h': 480, 'timescale': 90000, 'fragms': 2000, 'via': 'builder', 'unit': 1, 'unit1': True,
+               'judge_config': False, 'must_build': False,
+               'facets': {'bytes': False, 'timing': False, 'tree': False, 'raw': False}}
+        full = {'sps': ps(0x67, 8), 'pps': ps(0x68, 4), 'vps': ps(0x40, 4), 'av1': [0x0a, len(AV1_SEQ)] + AV1_SEQ,
+                'vp9': {'width': 640, 'height': 480, 'profile': 0, 'bit_depth': 8, 'color_space': 1, 'transfer_function': 1, 'matrix_coefficients': 1, 'level': 0, 'full_range_flag': 0}}
+        need = {'h264': ['sps', 'pps'], 'h265': ['vps', 'sps', 'pps'], 'av1': ['av1'], 'vp9': ['vp9']}[vc]
+        for f in need:
+            if f != missing:
+                cfg[f] = full[f]
+        if missing == 'video':
+            cfg['novideo'] = True
+            cfg['sps'] = full['sps']
+            cfg['pps'] = full['pps']
+        out.append({'kind': 'frag', 'cfg': cfg, 'calls': []})
+    return out
+
+
+def gen_meta(rng, tier):
+    """Titles, creation times, language codes, presence combinations (C18); each run is paired with the
+    metadata-free run of the same history by the harness (rel = meta)."""
+    out = []
+    F = {'bytes': True, 'timing': True, 'tree': True, 'raw': True}
+    def inst(meta, vc='h264', ac='aac', frames=True, fast=True):
+        cfg = base_cfg(vc, ac, fast=fast)
+        cfg['facets'] = F
+        cfg['meta'] = meta
+        calls = []
+        if frames:
+            calls.append({'op': 'wv', 'pts': fin(0), 'data': video_frame(rng, vc, True, 4), 'key': True})
+            if ac != 'none':
+                calls.append({'op': 'wa', 'pts': fin(0), 'data': audio_frame(rng, ac, 5)})
+        calls.append({'op': 'fin', 'how': 'in_place_stats'})
+        return {'cfg': cfg, 'calls': calls, 'rel': 'meta'}
+    # titles
+    titles = ['', 'A', 'plain ascii title', 'é', 'ü€', '€uro ☃ snow', '𝄞 clef 🎬', 'x' * 300, 'ÿ' * 150, 'a\x00b', ' ', '"quoted" \\ back']
+    for i, t in enumerate(titles):
+        out.append(inst({'title': list(t.encode())}, fast=i % 2 == 0, ac=['aac', 'none', 'opus'][i % 3]))
+    for n in range(0, 301, 7 if tier == 'quick' else 1):
+        out.append(inst({'title': [0x41 + (k % 26) for k in range(n)]}, frames=n % 2 == 0, fast=n % 3 != 0))
+    # dates
+    days = set()
+    years = list(range(1970, 2111)) + list(range(2125, 10000, 25 if tier == 'quick' else 1)) + [2400, 2800, 9999, 4000]
+    def dfc(y, m, d):
+        import datetime
+        return (datetime.date(y, m, d) - datetime.date(1970, 1, 1)).days
+    for y in years:
+        for (m, d) in [(1, 1), (2, 28), (3, 1), (12, 31)]:
+            days.add(dfc(y, m, d))
+        leap = (y % 4 == 0 and y % 100 != 0) or y % 400 == 0
+        if leap:
+            days.add(dfc(y, 2, 29))
+    for _ in range(1000 if tier == 'quick' else 20000):
+        days.add(rng.randrange(0, 2932897))
+    for k, dcount in enumerate(sorted(days)):
+        sod = [0, 86399, 43200, rng.randrange(0, 86400)][k % 4]
+        m = {'ct_days': dcount, 'ct_sod': sod}
+        if k % 5 == 0:
+            m['title'] = list(b'dated')
+        out.append(inst(m, frames=False, ac='none', fast=k % 2 == 0))
+    # languages: all codes (thorough) / a sample plus edges (quick), on a two-track file
+    import itertools
+    codes = [''.join(c) for c in itertools.product('abcdefghijklmnopqrstuvwxyz', repeat=3)]
+    if tier == 'quick':
+        codes = ['aaa', 'zzz', 'eng', 'und', 'fra', 'azb', 'zaz'] + rng.sample(codes, 1500)
+    for k, c in enumerate(codes):
+        m = {'lang': list(c.encode())}
+        if k % 7 == 0:
+            m['title'] = list(b'L')
+        out.append(inst(m, frames=k % 50 == 0, ac='aac' if k % 2 == 0 else 'opus', vc=['h264', 'h265', 'av1', 'vp9'][k % 4]))
+    # all 8 presence combinations x layouts x tracks
+    for bits in range(8):
+        for fast in (True, False):
+            for ac in ('none', 'aac'):
+                m = {}
+                if bits & 1:
+                    m['title'] = list('Tïtle'.encode())
+                if bits & 2:
+                    m['ct_days'] = 19723
+                    m['ct_sod'] = 12345
+                if bits & 4:
+                    m['lang'] = list(b'spa')
+                out.append(inst(m, ac=ac, fast=fast))
+    # termination on huge creation times and malformed language codes (C12 only; values not judged)
+    for raw in [[0x7f] + [0xff] * 7, [0xff] * 8, [0x80] + [0] * 7, [0, 0, 0, 0x3b, 0x9a, 0xca, 0, 0], [0, 0, 0x01, 0, 0, 0, 0, 0]]:
+        out.append(inst({'ct_raw': raw}, frames=False, ac='none'))
+    for lang in [[], [0x65], [0x65, 0x6e], list(b'ENG'), list(b'engl'), list('ééé'.encode()), [0x7f, 0x7f, 0x7f], list(b'e g'), [0x00, 0x01, 0x02]]:
+        out.append(inst({'lang': lang}))
+    return out
+
+
 def generate(kind, n, seed, tier):
     rng = random.Random((seed * 1000003) ^ hash(kind) & 0xffff if False else seed * 1000003 + sum(map(ord, kind)))
     out = []
@@ -297,6 +464,12 @@ def generate(kind, n, seed, tier):
         return hs
     if kind == 'adts':
         return gen_adts(rng, tier)
+    if kind == 'layout':
+        return gen_layout(rng, tier)
+    if kind == 'fraginit':
+        return gen_fraginit(rng, tier)
+    if kind == 'meta':
+        return gen_meta(rng, tier)
     for _ in range(n):
         if kind == 'mux':
             out.append(gen_mux(rng, tier))
